@@ -1,0 +1,42 @@
+//! Verification hooks for `fetching.rs` (compiled only with `--cfg scylla_verif`).
+//!
+//! Pass-throughs to the row → `Peer` and option-map → `Strategy` conversions of the metadata fetch.
+//! Contains no driver logic of its own.
+
+use super::*;
+
+/// `ControlConnection::create_peer_from_row` on a `system.peers` (`local = false`) or `system.local`
+/// row with the given columns; `port` is the port of the control connection's address.
+pub async fn peer_from_row(
+    local: bool,
+    host_id: Option<Uuid>,
+    rpc_address: IpAddr,
+    datacenter: Option<String>,
+    rack: Option<String>,
+    tokens: Option<Vec<String>>,
+    port: u16,
+) -> Option<Peer> {
+    let source = if local {
+        NodeInfoSource::Local
+    } else {
+        NodeInfoSource::Peer
+    };
+    let row = NodeInfoRow {
+        host_id,
+        untranslated_ip_addr: rpc_address,
+        datacenter,
+        rack,
+        tokens,
+    };
+    ControlConnection::create_peer_from_row(source, row, SocketAddr::new(rpc_address, port)).await
+}
+
+/// `ControlConnection::validate_peers`, `Err` as its display text.
+pub fn validate_peers(peers: &[Peer]) -> Result<(), String> {
+    ControlConnection::validate_peers(peers).map_err(|e| e.to_string())
+}
+
+/// `strategy_from_string_map` on the `replication` column of `system_schema.keyspaces`.
+pub fn strategy_from_options(options: HashMap<String, String>) -> Result<Strategy, String> {
+    strategy_from_string_map(options).map_err(|e| e.to_string())
+}
